@@ -181,9 +181,58 @@ def op_prizes(ctx: Ctx):
         raise AnalysisError(f"OPGenerator._generate: prize alternatives recognised as {sorted(seen)}")
 
 
+def mtvrp_backhaul_fraction(ctx: Ctx):
+    """C18.y `backhaul_ratio` is documented as the fraction of BACKHAUL customers: the indicator multiplied into the backhaul demands
+    is `U <= backhaul_ratio` (probability ratio) and the one multiplied into the linehaul demands its complement `U > backhaul_ratio`,
+    U one and the same uniform draw -- so every customer is exactly one of the two.  Read off the stored `demand_backhaul` /
+    `demand_linehaul` values; `~(U > r)` and `U <= r` are one literal after normalisation."""
+    from ..envs import EnvA, generator_slot
+    from ..tables import routing as TR_
+    env = EnvA(ctx.repo, TR_.ENVS["MTVRPEnv"][0], "MTVRPEnv")
+    g, gsl = generator_slot(ctx.repo, env.cls)
+    ctx.fn(gsl.fi)
+    r = nf.poly(vg.mk("selfattr", "backhaul_ratio"))
+    draws = {}
+    for key, want_op, sign in (("demand_backhaul", ">=0", +1), ("demand_linehaul", ">0", -1)):
+        v = gsl.fr.ret.cells.get(key)
+        if v is None:
+            raise AnalysisError(f"MTVRPGenerator._generate: no `{key}` entry")
+        lits, consumed = [], set()
+        nodes = list(vg.walk(v))
+        for x in nodes:
+            if x.op in ("inv", "not") and isinstance(x.args[0], vg.S):
+                c = nf.cmpnf(nf.strip(x.args[0], True))
+                if c is not None and any(a.op == "selfattr" and a.args[0] == "backhaul_ratio" for a in c[0].atoms()):
+                    lits.append(nf.cmpnf(nf.strip(x.args[0], True), negate=True))
+                    consumed.add(nf.strip(x.args[0], True).id)
+        for x in nodes:
+            if x.id in consumed or x.op in ("inv", "not"):
+                continue
+            c = nf.cmpnf(x) if x.op in ("cmp", ">", "<", ">=", "<=") or nf._cmp_raw(x) is not None else None
+            if c is not None and any(a.op == "selfattr" and a.args[0] == "backhaul_ratio" for a in c[0].atoms()):
+                lits.append(c)
+        ok, why = bool(lits), "no indicator built from backhaul_ratio"
+        for P_, op_ in lits:
+            # backhaul: r - U >= 0 ; linehaul: U - r > 0
+            U_ = (r - P_) if sign > 0 else (P_ + r)
+            ats = U_.atoms()
+            isdraw = len(ats) == 1 and U_ == nf.Poly.atom(ats[0]) and nf._fn(nf.strip(ats[0], True)) in ("torch.rand", "torch.rand_like")
+            ok = ok and op_ == want_op and isdraw
+            if isdraw:
+                draws.setdefault(key, set()).add(nf.strip(ats[0], True).id)
+            why = f"{key} is kept where {P_.show(2)} {op_} (expected {'backhaul_ratio - U >= 0' if sign > 0 else 'U - backhaul_ratio > 0'}, U a torch.rand draw: {isdraw})"
+        ctx.ob("C18.y", f"MTVRPGenerator:{key}:fraction", ok, gsl.fi.loc, why + ("" if ok else " -- the documented fraction of backhaul customers is not the one generated"),
+               construct=f"MTVRPGenerator.generate_demands:{key}:indicator")
+    same = draws.get("demand_backhaul") and draws.get("demand_backhaul") == draws.get("demand_linehaul")
+    ctx.ob("C18.y", "MTVRPGenerator:linehaul-xor-backhaul", bool(same), gsl.fi.loc,
+           "both indicators are built from one and the same uniform draw: every customer is exactly one of linehaul / backhaul" if same else
+           "the two indicators use different draws: a customer can be both or neither", construct="MTVRPGenerator.generate_demands:one-draw")
+
+
 def run(ctx: Ctx):
     option_dispatch_by_equality(ctx)
     op_prizes(ctx)
+    mtvrp_backhaul_fraction(ctx)
     base = ctx.repo.get_class(UT, "Generator")
     gens = [c for c in ctx.repo.subclasses(base) if c.module.name.startswith("rl4co.envs")]
     if len(gens) < 18:
